@@ -28,15 +28,18 @@ ASSUMPTIONS = ['"all byte strings" is covered as all truncations, all single (do
 FLOOR = {'quick': 20000, 'thorough': 200000}
 
 CORRUPT = ['', ' ', 'x', '-', '1e400', '99999999999999999999', '2020-13-01', '9' * 2048, 'true', '2020-01-02', 'PT1S', 'é\U0001F600',
-           '-0', '0x10', '1,5', 'NaN', 'null', '{}', '[]', '<a/>', '&amp;']
+           '-0', '0x10', '1,5', 'NaN', 'null', '{}', '[]', '<a/>', '&amp;',
+           # long literals (error paths that abbreviate what they report): mis-padded, outside every alphabet
+           'A' * 101, 'ab' * 75 + '=', '!' * 120]
 STRUCT_ALPHABET = b'<>/="\'{}[]:,&;?! \n\x00\xff\x80aA0-.'
 
 
 def corpus_atoms(tier):
     ids = ['Integer', 'Byte', 'Decimal', 'Double', 'Boolean', 'Unicode', 'Uuid', 'DateTime', 'Date', 'Time', 'Duration',
-           'ByteArray', 'ByteArray(hex)', 'Enum', 'Integer(ge,le)', 'Unicode(pattern)', 'Mandatory(Integer)']
+           'ByteArray', 'ByteArray(hex)', 'ByteArray(urlsafe_base64)', 'Enum', 'Integer(ge,le)', 'Unicode(pattern)', 'Mandatory(Integer)']
     if tier == 'quick':
-        ids = ['Integer', 'Decimal', 'Boolean', 'Unicode', 'DateTime', 'Duration', 'ByteArray', 'Enum', 'Mandatory(Integer)']
+        ids = ['Integer', 'Decimal', 'Boolean', 'Unicode', 'DateTime', 'Duration', 'ByteArray', 'ByteArray(hex)', 'ByteArray(urlsafe_base64)', 'Enum',
+               'Mandatory(Integer)']
     return ids
 
 
